@@ -21,6 +21,66 @@
 static int sumSizes (mapping_t *, mapping_node_t *, void *);
 static int svalue_size (svalue_t *);
 
+/*
+ * The containers (arrays, classes, mappings) met so far by the current size walk.  One that is met again,
+ * because it is shared or part of a cycle such as a[0] = a, contributes nothing the second time.  Without
+ * this a walk over self-referencing data never ended and overflowed the C stack.
+ */
+static void **seen_tab = NULL;
+static size_t seen_size = 0, seen_used = 0;
+
+void
+size_walk_begin (void)
+{
+  if (seen_tab)
+    memset (seen_tab, 0, seen_size * sizeof (void *));
+  seen_used = 0;
+}
+
+void
+size_walk_end (void)
+{
+  if (seen_tab)
+    FREE (seen_tab);
+  seen_tab = NULL;
+  seen_size = seen_used = 0;
+}
+
+/* returns 1 if the container was met before in this walk, otherwise records it and returns 0 */
+int
+size_walk_seen (void *p)
+{
+  size_t i, mask;
+
+  if (2 * (seen_used + 1) > seen_size)
+    {
+      /* open addressing, kept at most half full */
+      size_t old_size = seen_size, k;
+      void **old_tab = seen_tab;
+
+      seen_size = old_size ? 2 * old_size : 64;
+      seen_tab = CALLOCATE (seen_size, void *, TAG_TEMPORARY, "size_walk_seen");
+      memset (seen_tab, 0, seen_size * sizeof (void *));
+      mask = seen_size - 1;
+      for (k = 0; k < old_size; k++)
+	if (old_tab[k])
+	  {
+	    for (i = ((size_t) old_tab[k] >> 4) & mask; seen_tab[i]; i = (i + 1) & mask)
+	      ;
+	    seen_tab[i] = old_tab[k];
+	  }
+      if (old_tab)
+	FREE (old_tab);
+    }
+  mask = seen_size - 1;
+  for (i = ((size_t) p >> 4) & mask; seen_tab[i]; i = (i + 1) & mask)
+    if (seen_tab[i] == p)
+      return 1;
+  seen_tab[i] = p;
+  seen_used++;
+  return 0;
+}
+
 static int
 sumSizes (mapping_t * m, mapping_node_t * elt, void *tp)
 {
@@ -47,6 +107,8 @@ svalue_size (svalue_t * v)
       return (int) (strlen (v->u.string) + 1);
     case T_ARRAY:
     case T_CLASS:
+      if (size_walk_seen (v->u.arr))
+	return 0;
       /* first svalue is stored inside the array struct */
       total = sizeof (array_t) - sizeof (svalue_t);
       for (i = 0; i < v->u.arr->size; i++)
@@ -55,6 +117,8 @@ svalue_size (svalue_t * v)
 	}
       return total;
     case T_MAPPING:
+      if (size_walk_seen (v->u.map))
+	return 0;
       total = sizeof (mapping_t);
       mapTraverse (v->u.map, sumSizes, &total);
       return total;
@@ -105,10 +169,12 @@ data_size (object_t * ob)
 
   if (ob->prog)
     {
+      size_walk_begin ();
       for (i = 0; i < (int) ob->prog->num_variables_total; i++)
 	{
 	  total += svalue_size (&ob->variables[i]) + sizeof (svalue_t);
 	}
+      size_walk_end ();
     }
   return total;
 }
